@@ -52,3 +52,10 @@ def deep_fresh(x):
 
 def unord(x):
     return False
+
+
+def lemma(**kw):
+    def deco(f):
+        f._lemma = kw
+        return f
+    return deco
